@@ -11,20 +11,22 @@ PROPS = {
         rule="seeded random plans (1-4 clients, pipelines of 1-80 mixed forwarded/split/local/rejected requests) x seeded schedules "
              "(per-backend reply release order, segmentation, poll ready-list order); a run is non-trivial when some client mixes "
              "locally answered and forwarded requests and at least one poll returned >=2 ready descriptors; distinct = distinct hash of the "
-             "proxy-visible event sequence (ordered ready lists + syscall result classes)",
-        quick=dict(budget_s=70, profiles=[P("C01", 500)]),
-        thorough=dict(budget_s=1500, profiles=[P("C01", 20000), P("C01", 6000, "deep")]),
-        reach=["PollsMulti", "ShortReads", "ShortWrites"],
+             "proxy-visible event sequence (ordered ready lists + syscall result classes); variant crowd: 140-330 connections with short "
+             "pipelines that become ready in the same polls (the poller's 128-entry event list is exceeded and must grow)",
+        quick=dict(budget_s=80, profiles=[P("C01", 450), P("C01", 12, "crowd")]),
+        thorough=dict(budget_s=1800, profiles=[P("C01", 20000), P("C01", 6000, "deep"), P("C01", 800, "crowd")]),
+        reach=["PollsMulti", "ShortReads", "ShortWrites", "PollsTruncated"],
     ),
     "C09": dict(
         level="exploration",
         rule="open-loop clients (one request every d ms, d below/equal/above the backend latency L) under a strictly fair, fault-free "
              "schedule; oracle: reply i reaches the client within 3 rounds / 1 fake second of the round in which the proxy had been handed "
              "the backend replies of requests 0..i; non-trivial = at least one request completed while a later one was already outstanding; "
-             "distinct = distinct proxy-visible event-sequence hash",
-        quick=dict(budget_s=70, profiles=[P("C09", 200)]),
-        thorough=dict(budget_s=900, profiles=[P("C09", 6000)]),
-        reach=["c09_completed_while_later_outstanding"],
+             "distinct = distinct proxy-visible event-sequence hash; variant burst: one client pipelines 1025-4200 requests at once and the "
+             "oldest (plus up to two others) is answered late, so thousands of completed replies must be flushed at once behind it",
+        quick=dict(budget_s=80, profiles=[P("C09", 200), P("C09", 14, "burst")]),
+        thorough=dict(budget_s=1200, profiles=[P("C09", 6000), P("C09", 600, "burst")]),
+        reach=["c09_completed_while_later_outstanding", "c09_burst_over_1024_behind_head"],
     ),
     "C16": dict(
         level="fault_enumeration",
@@ -77,10 +79,11 @@ PROPS = {
     "C08": dict(
         level="exploration",
         rule="well-formed pipelines (all request classes, binary-safe arguments, some >128 KiB) cut into seeded random chunks, 1-byte chunks, and (thorough) "
-             "every single cut position and cut pairs of fixed pipelines, with read buffers of 16 B..64 KiB; oracle: exactly the planned requests are "
+             "every single cut position and cut pairs of fixed pipelines, plus boundary-related cuts (variant aligned: on request boundaries, fixed distances around them, "
+             "at the length of an earlier request into a later one; one read per chunk), with read buffers of 16 B..64 KiB; oracle: exactly the planned requests are "
              "recognised once each, in order, unaltered, and the connection is never closed or answered early; non-trivial = more than 3 proxy reads",
-        quick=dict(budget_s=80, profiles=[P("C08", 400)]),
-        thorough=dict(budget_s=1800, profiles=[P("C08", 8000)] + [P("C08", 0, enumerate=["cut:%d:%d" % (pl, pos) for pl in range(12) for pos in range(0, 400)])]
+        quick=dict(budget_s=80, profiles=[P("C08", 300), P("C08", 300, "aligned")]),
+        thorough=dict(budget_s=1800, profiles=[P("C08", 8000), P("C08", 12000, "aligned")] + [P("C08", 0, enumerate=["cut:%d:%d" % (pl, pos) for pl in range(12) for pos in range(0, 400)])]
                       + [P("C08", 0, enumerate=["cut:%d:%d:%d" % (pl, pos, d) for pl in range(3) for pos in range(0, 200, 3) for d in range(0, 64, 5)])]),
         reach=["ShortReads", "c08_chunks"],
     ),
@@ -126,13 +129,13 @@ PROPS = {
     "C15": dict(
         level="fault_enumeration",
         rule="pipelines of 1-12 single/split requests from 1-3 clients; one fault per run (thorough: up to three): backend connection FIN/RST before the "
-             "fragment is read / after it is read / after k reply bytes, node down then up, or a slot range moved to a node the proxy does not know; "
+             "fragment is read / after it is read / after k reply bytes, a peer reset that meets the proxy's next write without a prior hang-up event, node down then up, or a slot range moved to a node the proxy does not know; "
              "thorough enumerates fault phase x affected position x request kind for pipelines <= 6; request timeout 0 and >0; oracle (fair settle phase "
              "after the last fault): every request has a reply (data or error) or its client connection was closed by the proxy, data replies are "
              "still right, a client connecting after the fault is served over a new connection; non-trivial = a fault actually fired",
         quick=dict(budget_s=80, profiles=[P("C15", 500)]),
         thorough=dict(budget_s=1500, profiles=[P("C15", 10000), P("C15", 3000, "multi"), P("C15", 0, enumerate=["enum:%d" % i for i in range(3 * 6 * 6 * 3)])]),
-        reach=["c15_faults", "backend_conn_killed"],
+        reach=["c15_faults", "backend_conn_killed", "c15_rst_at_write_fired"],
     ),
     "C13": dict(
         level="exploration",
@@ -151,9 +154,9 @@ PROPS = {
              "request timeouts with stalled backends, backend connections killed mid-run; oracle: every delivered reply equals the token-matched backend "
              "reply (or merge) for that client's request at that position or is a proxy error; missing replies are not this property's business; "
              "non-trivial = an unroutable request, a client disconnect or a backend kill actually occurred",
-        quick=dict(budget_s=80, profiles=[P("C03", 450), P("C03", 250, "swarm")]),
-        thorough=dict(budget_s=1800, profiles=[P("C03", 25000), P("C03", 20000, "swarm")]),
-        reach=["c03_unroutable_replies", "c03_client_disconnects", "backend_conn_killed"],
+        quick=dict(budget_s=90, profiles=[P("C03", 300), P("C03", 160, "swarm"), P("LIN", 50), P("LIN", 40, "redir"), P("LIN", 40, "faulty"), P("LIN", 30, "swarm")]),
+        thorough=dict(budget_s=2400, profiles=[P("C03", 25000), P("C03", 20000, "swarm"), P("LIN", 5000), P("LIN", 5000, "redir"), P("LIN", 5000, "faulty"), P("LIN", 5000, "swarm")]),
+        reach=["c03_unroutable_replies", "c03_client_disconnects", "backend_conn_killed", "lin_concurrent_pairs", "lin_redirects", "lin_unknown_outcomes"],
     ),
     "C14": dict(
         level="exploration",
@@ -170,11 +173,12 @@ PROPS = {
     "C20": dict(
         level="exploration",
         rule="3-4 masters with 2-4 healthy replicas each, replica reads enabled, about 300 read commands per master (12 read command types) mixed with "
-             "writes from 1-3 pipelining clients under seeded schedules; variant with one replica refusing connections; oracle: every replica that was "
+             "writes from 1-3 pipelining clients under seeded schedules; variant with one replica refusing connections; variant pattern: one client "
+             "repeating a short regular cycle of (master, read|write) steps (strict rotation, write-then-read pairs, seeded cycles); oracle: every replica that was "
              "healthy for the whole run served at least one of >=200 reads of its master (miss probability < 1e-35 under uniform choice), writes only "
              "at masters; non-trivial = more than 400 reads observed",
-        quick=dict(budget_s=90, profiles=[P("C20", 60), P("C20", 20, "banned")]),
-        thorough=dict(budget_s=1200, profiles=[P("C20", 2000), P("C20", 600, "banned")]),
+        quick=dict(budget_s=90, profiles=[P("C20", 50), P("C20", 20, "banned"), P("C20", 60, "pattern")]),
+        thorough=dict(budget_s=1200, profiles=[P("C20", 2000), P("C20", 600, "banned"), P("C20", 3000, "pattern")]),
         reach=["c20_reads"],
     ),
     "C18": dict(
